@@ -25,12 +25,17 @@ structure Strong (c : Cfg) (p : PState) : Prop where
   swf : wfMu c.sh.smu
   lf  : ∀ t, LF (c.loc t)
   sf  : ∀ t, SF c.sh t (c.loc t)
+  /-- the converse for `store.mu`: its owners are inside a section, each reader once -/
+  rnd : c.sh.smu.readers.Nodup
+  conv : ∀ u, (c.sh.smu.writer = some u → inW (c.loc u).pc = true) ∧ (u ∈ c.sh.smu.readers → inR (c.loc u).pc = true)
 
 theorem Strong.init : Strong {} {} where
   sim := Sim.init
   swf := wfMu_default
   lf := fun _ => by rw [loc_default]; lf_triv
   sf := fun _ => by rw [loc_default]; constructor <;> simp [inW, inR, grow]
+  rnd := List.nodup_nil
+  conv := by intro u; constructor <;> intro h <;> cases h
 
 theorem guarded_of_strong {c : Cfg} {p : PState} (h : Strong c p) (t : Tid) : Guarded c t := by
   refine ⟨?_, ?_, ?_, ?_, ?_⟩
